@@ -335,14 +335,6 @@ def nxRead (cfg : NxCfg) (taxa : List Str) (rows : List (Str × Str)) : Except E
 /-- rows of a CHARACTERS block as the (repaired) writer lays them out -/
 def nxRows (m : Matrix) : List (Str × Str) := m.map (fun r => (r.1, renderCells r.2))
 
-/-- interleaved layout: the same cells in pages of `w` columns (symbol cells only) -/
-def pages (w : Nat) (fuel : Nat) (m : List (Str × Str)) : List (Str × Str) :=
-  match fuel with
-  | 0 => []
-  | fuel + 1 =>
-    if m.all (fun r => r.2.isEmpty) then []
-    else m.map (fun r => (r.1, r.2.take w)) ++ pages w fuel (m.map (fun r => (r.1, r.2.drop w)))
-
 /-! ### PHYLIP -/
 def ljust (n : Nat) (s : Str) : Str := s ++ List.replicate (n - s.length) ' '
 def s2u (s : Str) : Str := s.map (fun c => if c == ' ' then '_' else c)
@@ -488,14 +480,6 @@ def phRead (cfg : PhCfg) (lines : List Str) : Except Err (List (Str × Str)) :=
       | .ok st => if st.processed != ntax then .error .count else .ok st.rows
     | _ => .error .header
 
-/-- interleaved PHYLIP layout of a matrix (first page carries the labels), pages of width `w` -/
-def phPagesTail (w : Nat) (fuel : Nat) (seqs : List Str) : List Str :=
-  match fuel with
-  | 0 => []
-  | fuel + 1 =>
-    if seqs.all (·.isEmpty) then []
-    else [] :: (seqs.map (·.take w) ++ phPagesTail w fuel (seqs.map (·.drop w)))
-
 /-! ### FASTA -/
 def wrap70 (col : Nat) : Str → Str
   | [] => []
@@ -547,9 +531,10 @@ def splitLines : Str → List Str
 def setAt (v : List (Option α)) (i : Nat) (x : α) : List (Option α) :=
   if i < v.length then v.set i (some x) else v ++ List.replicate (i - v.length) none ++ [some x]
 
-/-- a row of `<cell char= state=>`: the column is the position of the char id in the format section -/
-def nexmlReadRow (chars : List Nat) (cells : List (Nat × α)) : List (Option α) :=
-  cells.foldl (fun v c => setAt v (chars.idxOf c.1) c.2) []
+/-- a row of `<cell char= state=>`: the column is the position of the char id in the format section; a cell naming
+a `<char>` that the format section does not define is an error (`none`), as in the reader -/
+def nexmlReadRow (chars : List Nat) (cells : List (Nat × α)) : Option (List (Option α)) :=
+  cells.foldl (fun v c => v.bind (fun v => if chars.contains c.1 then some (setAt v (chars.idxOf c.1) c.2) else none)) (some [])
 
 /-- repaired `_write_format_section` for a matrix without column definitions: the char id of a cell is a function
 of its column index only (`colId`); the format section lists ids in order of first use -/
